@@ -12,6 +12,7 @@ import (
 	"io"
 	"os"
 	"path/filepath"
+	"strings"
 )
 
 // A Ruleset is the result of reading, parsing, and compiling a
@@ -96,7 +97,11 @@ func (r *Ruleset) Excludes(path string) (ExcludesResult, error) {
 		}
 		if match {
 			foundMatch = !rule.negated
-			dominating = foundMatch && !rule.negationsAfter
+			// A match may only be called dominating, which lets callers
+			// prune the whole directory, if the rule covers everything
+			// below the path too (it ends in "**") and no later rule can
+			// re-include anything.
+			dominating = foundMatch && !rule.negationsAfter && strings.HasSuffix(rule.val, "**")
 		}
 	}
 	return ExcludesResult{
